@@ -135,9 +135,12 @@ def _same_registry(a, b):
 CUSTOM_MSG = "custom rule fired"
 
 
-def _custom_rule(obj):
-    from odml.validation import ValidationError, IssueID
-    yield ValidationError(obj, CUSTOM_MSG, "warning", IssueID.custom_validation)
+def _make_custom_rule(tag):
+    """Every custom Validation instance of a history registers its own rule (told apart by the message)."""
+    def rule(obj):
+        from odml.validation import ValidationError, IssueID
+        yield ValidationError(obj, "%s %s" % (CUSTOM_MSG, tag), "warning", IssueID.custom_validation)
+    return rule
 
 
 def _action(v, key, doc, state):
@@ -159,9 +162,10 @@ def _action(v, key, doc, state):
             custom = Validation(target, validate=False, reset=True)
         else:
             custom = Validation(target, reset=True)
-        custom.register_custom_handler(klass, _custom_rule)
+        tag = "#%d" % len(state["custom_results"])
+        custom.register_custom_handler(klass, _make_custom_rule(tag))
         custom.run_validation()
-        state["custom_results"].append(custom)
+        state["custom_results"].append((custom, tag))
     elif kind == 2:
         if v.bool(key + ".section"):
             odml.Section(name="n%d" % len(state["created"]), type="t", parent=sec)
@@ -233,12 +237,14 @@ def registry_ob(v):
         for err in res.errors:
             if err.validation_id is not None and err.validation_id.value == 701:
                 raise Violation("a custom rule shows up in a default validation")
-    for res in state["custom_results"]:
+    for res, tag in state["custom_results"]:
         v.label("custom-ran")
         hits = [e for e in res.errors if e.validation_id is not None and e.validation_id.value == 701]
         v.check(len(hits) >= 1, "the custom rule did not run in its own Validation instance")
         v.check(not any(e.validation_id.value != 701 for e in res.errors),
-                "a reset=True Validation applied default rules as well")
+                "a reset=True Validation applied rules that were not registered on it")
+        v.check(all(e.msg == "%s %s" % (CUSTOM_MSG, tag) for e in hits),
+                "a custom Validation applied a rule that was registered on another custom instance")
     v.label("default-ran")
 
 
@@ -264,3 +270,42 @@ class _Fixed(object):
 
     def __getattr__(self, name):
         return getattr(self._inner, name)
+
+
+@obligation("C19", "pure_optional_rules", shards=1, budget={"quick": 300, "thorough": 900},
+            expect=["issues"],
+            bounds="Document with a repository URL (not fetchable), Sections that set their own repository or inherit it (symbolic per Section), one "
+                   "Property; a reset=True Validation with the library's optional terminology rules registered")
+def pure_optional_rules_ob(v):
+    """The optional repository/terminology rules only observe as well."""
+    import odml
+    from odml import validation
+    from odml.validation import Validation
+    doc = odml.Document()
+    doc._repository = "file:///nonexistent/verif/terms.xml"
+    s0 = odml.Section(name="s0", type="t", parent=doc)
+    s1 = odml.Section(name="s1", type="t", parent=s0)
+    prop = odml.Property(name="p", values=[1], parent=s1)
+    for i, sec in enumerate((s0, s1)):
+        if v.bool("own_repository%d" % i):
+            sec._repository = "file:///nonexistent/verif/own%d.xml" % i
+    objs = [doc, s0, s1, prop]
+    before = C.snapshot(objs)
+    custom = Validation(doc, validate=False, reset=True)
+    for klass, name in (("section", "section_repository_present"), ("property", "property_terminology_check")):
+        rule = getattr(validation, name, None)
+        if rule is not None:
+            custom.register_custom_handler(klass, rule)
+    try:
+        custom.run_validation()
+        first = issue_list(custom, objs, v.real)
+        custom.run_validation()
+        second = issue_list(custom, objs, v.real)
+    except Exception as exc:  # noqa
+        v.classify(exc)
+        raise Violation("validation with the optional rules raised %s" % type(exc).__name__)
+    diff = C.snapshot_diff(before, C.snapshot(objs))
+    if diff is not None:
+        raise Violation("validation with the optional repository rules changed the validated objects: " + diff)
+    v.check(same_multiset(first, second), "two validations of the same unchanged objects report different issues")
+    v.label("issues" if first else "clean")
